@@ -55,8 +55,12 @@ EXPLANATION = (
     'X[i, j] and y[j] over the full feature range for every row, initial '
     'stores write 0 and never follow the accumulation, the finishing store '
     '(sqrt / division by n_features) is applied exactly once per cell after '
-    'the accumulation, and no element-typed temporary holds an arithmetic '
-    'result; (D6) metric names map to the right kernels (decision list of '
+    'the accumulation, no element-typed temporary holds an arithmetic '
+    'result, and every arithmetic operation of the euclidean / manhattan term '
+    'has a double operand (C usual arithmetic conversions: a difference or '
+    'square of two cells of the element type is computed in that type - int32/'
+    'int64 wrap, float32 rounds/overflows - and only the result is widened; '
+    'C13.D5.formula.widen); (D6) metric names map to the right kernels (decision list of '
     '_get_distance_method evaluated per name). Floating-point exactness and '
     'memory layouts are delegated to Cython typed-buffer indexing (no raw '
     'pointers: checked).')
@@ -972,6 +976,147 @@ def _term_verdict(metric, term, conds, conds_ok, X, y, iv, jv, scope):
     return 'far', 'term not recognised'
 
 
+class _StripWide(ast.NodeTransformer):
+    """`<double>e` -> e: a widening cast does not change the shape of the
+    accumulated term (where the widening happens is decided by
+    C13.D5.formula.widen)."""
+
+    def visit_Call(self, n):
+        self.generic_visit(n)
+        if call_name(n) == '__cy_cast__' and len(n.args) == 2 and not n.keywords and const_value(n.args[0]) in WIDE:
+            return n.args[1]
+        return n
+
+
+def _strip_wide(e):
+    return _StripWide().visit(copy.deepcopy(e)) if isinstance(e, ast.AST) else e
+
+
+# C types of scalar locals that are integers (loop counters, extents)
+_C_INTS = {'int', 'long', 'short', 'char', 'unsigned int', 'unsigned long', 'long long', 'unsigned long long',
+           'Py_ssize_t', 'size_t', 'ssize_t', 'unsigned char', 'unsigned short', 'bint'}
+_ARITH = (ast.Add, ast.Sub, ast.Mult, ast.Pow, ast.Div, ast.FloorDiv, ast.Mod)
+
+
+class _CTypes:
+    """Static C type of an arithmetic expression in a kernel, as far as the
+    question "is this operation carried out in the element type of the input
+    buffers or in double?" needs it.  Abstract types: 'double', 'elem' (the
+    (fused) element type of an input buffer: int8..int64 / float32 / float64),
+    'int' (C integer scalars), 'lit' (integer literal: adopts the type of the
+    other operand), None (not known).  C's usual arithmetic conversions: an
+    operation with a double operand is carried out in double (the other
+    operand is converted first); an operation whose operands are both of the
+    element type (or integer scalars/literals) is carried out in the element
+    type and only its RESULT is widened afterwards.  The rule follows the
+    definitions of scalar temporaries (the declared type of the temporary is
+    its type at the use; the arithmetic of its definition is judged where it
+    is written)."""
+
+    def __init__(self, k, fn, fi, fused, wide_bufs):
+        self.k, self.fn, self.fi, self.fused = k, fn, fi, fused
+        self.wide_bufs = wide_bufs
+        self.narrow = []          # arithmetic nodes carried out in the element type
+        self.unknown = []         # nodes whose type the table does not know
+        self._seen = set()
+
+    def _declared(self, name):
+        t = self.fn.cy_locals.get(name) or self.fn.cy_argtypes.get(name)
+        if t is None or t.is_buffer:
+            return None
+        if t.text in WIDE or t.base in WIDE:
+            return 'double'
+        if t.base in self.fused:
+            return 'elem'
+        if t.text in _C_INTS or t.base in _C_INTS:
+            return 'int'
+        return None
+
+    def _buf_elem(self, name):
+        if name not in self.k.buffers:
+            return None
+        elems = [e for e in (self.k.buffers[name][1] or '').split('|') if e]
+        if elems and all(e in WIDE for e in elems):
+            return 'double'
+        return 'elem' if elems else None
+
+    def follow(self, name_node):
+        """Judge the arithmetic in the definitions of a scalar temporary."""
+        try:
+            defs = self.fi.defs_of_use(name_node)
+        except Exception:
+            return
+        for site in defs:
+            if site in ('PARAM', 'UNBOUND') or id(site) in self._seen:
+                continue
+            self._seen.add(id(site))
+            if isinstance(site, ast.AugAssign):
+                self.type_of(ast.BinOp(left=ast.Name(id=name_node.id, ctx=ast.Load()), op=site.op, right=site.value), origin=site)
+                continue
+            v = self.fi.def_value(site, name_node.id) if isinstance(site, (ast.Assign, ast.AnnAssign)) else None
+            if v is not None:
+                self.type_of(v)
+
+    def type_of(self, e, origin=None):
+        if isinstance(e, ast.Constant):
+            if isinstance(e.value, bool):
+                return 'int'
+            if isinstance(e.value, int):
+                return 'lit'
+            if isinstance(e.value, float):
+                return 'double'
+            return None
+        if isinstance(e, ast.Name):
+            t = self._declared(e.id)
+            if t is not None and isinstance(e.ctx, ast.Load) and hasattr(e, 'lineno'):
+                self.follow(e)
+            return t
+        if isinstance(e, ast.Subscript) and isinstance(e.value, ast.Name):
+            return self._buf_elem(e.value.id)
+        if isinstance(e, ast.UnaryOp) and isinstance(e.op, (ast.USub, ast.UAdd)):
+            return self.type_of(e.operand)
+        if isinstance(e, ast.Call) and not e.keywords:
+            cn = call_name(e)
+            if cn == '__cy_cast__' and len(e.args) == 2:
+                self.type_of(e.args[1])
+                tx = const_value(e.args[0])
+                if tx in WIDE:
+                    return 'double'
+                if tx in self.fused:
+                    return 'elem'
+                return 'int' if tx in _C_INTS else None
+            if cn in ('fabs', 'sqrt', 'pow') or cn == 'float':
+                for a in e.args:
+                    self.type_of(a)
+                return 'double'           # declared `double f(double)` in the extern block / Python float
+            if cn == 'abs' and len(e.args) == 1:
+                return self.type_of(e.args[0])
+            for a in e.args:
+                self.type_of(a)
+            return None
+        if isinstance(e, ast.BinOp) and isinstance(e.op, _ARITH):
+            lt, rt = self.type_of(e.left), self.type_of(e.right)
+            if 'double' in (lt, rt):
+                return 'double'
+            if lt is None or rt is None:
+                self.unknown.append(origin or e)
+                return None
+            if 'elem' in (lt, rt):
+                self.narrow.append(origin or e)
+                return 'elem'
+            return 'int' if 'int' in (lt, rt) else 'lit'
+        if isinstance(e, ast.IfExp):
+            self.type_of(e.test)
+            a, b = self.type_of(e.body), self.type_of(e.orelse)
+            return a if a == b else ('double' if 'double' in (a, b) and None not in (a, b) else None)
+        if isinstance(e, (ast.Compare, ast.BoolOp)):
+            for x in ast.iter_child_nodes(e):
+                if isinstance(x, ast.expr):
+                    self.type_of(x)
+            return 'int'
+        return None
+
+
 def _after(fi, a, La, s, Ls):
     """Statement s can execute after a for the same cell (not counting a later
     iteration of the loop they share)."""
@@ -1163,11 +1308,32 @@ def d5_formulas(ck, mod, fused, kernel_of):
             for c in conds0:
                 conds.append(Cmp(ex.expand(c.lhs), c.op, ex.expand(c.rhs)) if isinstance(c, Cmp) else c)
             scope = {X, y, iv, jv}
-            verdict, detail = _term_verdict(metric, term, conds, cok, X, y, iv, jv, scope)
+            verdict, detail = _term_verdict(metric, _strip_wide(term), conds, cok, X, y, iv, jv, scope)
             ck.decide(verdict, rule, mod, s, kern, u(s), want_txt[metric] + ' [' + detail + ']',
                       '%s accumulates `%s`%s; expected %s' % (
                           kern, u(term), (' under `%s`' % ' and '.join(repr(c) if isinstance(c, Cmp) else u(c[1]) for c in conds)) if conds else '',
                           want_txt[metric]))
+            # where the arithmetic of the term is carried out: the accumulator is float64, but a
+            # difference / square of two cells of the (fused) element type is computed IN that type and
+            # only its result is widened: int32/int64 wrap around, float32 rounds / overflows to inf
+            if metric in ('euclidean', 'manhattan'):
+                ct = _CTypes(k, fn, fi, fused, {out})
+                ct.type_of(s.value)
+                wrule = rule + '.widen'
+                if ct.narrow:
+                    b = ct.narrow[0]          # innermost first
+                    txt = u(b)[:100]
+                    ck.bad(wrule, mod, b if hasattr(b, 'lineno') else s, kern,
+                           '%s: arithmetic of the accumulated term is carried out in the element type of the input buffers' % metric,
+                           '%s computes `%s` in the (fused) element type of X and y and widens only the result to the float64 '
+                           'accumulator: for np.int32_t / np.int64_t data the difference (and its square) wraps around in C integer '
+                           'arithmetic (nan or a silently wrong distance), for np.float32_t data it is rounded to single precision '
+                           'and its square overflows to inf / underflows to 0. Both operands must be widened to double BEFORE '
+                           'the subtraction (`<double>X[i, j] - <double>y[j]`)' % (kern, txt))
+                elif ct.unknown:
+                    ck.missing(wrule, '%s: C type of `%s` in the accumulated term not decided' % (kern, u(ct.unknown[0])[:80]))
+                else:
+                    ck.ok(wrule, mod, s, u(s), 'every arithmetic operation of the term has a double operand (widened before the operation)')
             # nothing resets the cell after it was accumulated into
             for z, ztg, _ in inits:
                 _, Lz, _l = idx_loop(z, ztg)
